@@ -55,9 +55,16 @@ def handle (α : Type) [Arith α] [Wire α] : List Sexp → Sexp
 /-- exact oracle: the PROPERTY evaluated on the implementation's own answers. -/
 def oracle : List Sexp → Sexp
   | [.atom which, a, b, .str t1, .str t2] =>
-    if which != "same-lin" && which != "same-lin-api" then app "err" [.atom "bad-request"] else
+    if which != "same-lin" && which != "same-lin-api" && which != "same-lin-strict" then app "err" [.atom "bad-request"] else
     match (LinModel.dec a : Option (LinModel LpOracle.Bits)), (LinModel.dec b : Option (LinModel LpOracle.Bits)) with
-    | some a, some b => DisplayOracle.sameLin (which == "same-lin-api") a b t1 t2
+    | some a, some b =>
+      match DisplayOracle.sameLin (which == "same-lin-api") a b t1 t2 with
+      -- `same-lin-strict`: the source is one on which the bounds analysis reaches its fixed point in ONE
+      -- compilation, so domains that differ after re-compiling the rendering are not the known non-idempotence
+      | .list (.atom "violation" :: .atom "derived-domain-differs-on-recompile" :: rest) =>
+        if which == "same-lin-strict" then app "violation" (.atom "derived-domain-differs-where-fixpoint-holds" :: rest)
+        else app "violation" (.atom "derived-domain-differs-on-recompile" :: rest)
+      | r => r
     | _, _ => app "err" [.atom "decode"]
   | [.atom "same-lin-model", m, a, b, .str _, .str _] =>
     match (Model.dec m : Option (Model (Ext Rat))),
